@@ -13,6 +13,8 @@ COMMS = {
     "unit": {"k": "unit", "a": [1, 4], "b": Z},
     "tier": {"k": "tier", "a": [2, 1], "b": [1, 4]},
     "prop": {"k": "prop", "a": [1, 100], "b": Z},
+    "sell": {"k": "sell", "a": [1, 100], "b": Z},
+    "buy": {"k": "buy", "a": [1, 100], "b": Z},
 }
 
 
